@@ -35,7 +35,7 @@ theorem stripBy_pad_right {p : Char → Bool} (k : Nat) (c : Char) (t : List Cha
   have h1 : (t ++ List.replicate k c).dropWhile p = t ++ List.replicate k c ∨ t = [] := by
     cases t with
     | nil => right; rfl
-    | cons x t => left; simp [List.dropWhile, hh x rfl]
+    | cons x t => left; simp [hh x rfl]
   rcases h1 with h1 | h1
   · rw [h1, List.reverse_append, List.reverse_replicate]
     have : (List.replicate k c ++ t.reverse).dropWhile p = t.reverse := by
@@ -47,7 +47,8 @@ theorem stripBy_pad_right {p : Char → Bool} (k : Nat) (c : Char) (t : List Cha
   · subst h1
     simp only [List.nil_append]
     have : (List.replicate k c).dropWhile p = [] := by
-      rw [List.dropWhile_eq_nil_iff]; intro x hx; rw [List.eq_of_mem_replicate hx]; exact hc
+      have := dropWhile_replicate_append' (p := p) k c [] hc (by simp)
+      simpa using this
     simp [this]
 
 theorem isNumWs_blank : isNumWs ' ' = true := by decide
@@ -55,7 +56,9 @@ theorem isNumWs_blank : isNumWs ' ' = true := by decide
 theorem numWs_not_digit : ∀ n : Nat, n ≤ 57 → 45 ≤ n → Cfi.Generated.numWs.contains n = false := by decide
 
 theorem isDigit_iff (c : Char) : c.isDigit = true ↔ 48 ≤ c.toNat ∧ c.toNat ≤ 57 := by
-  simp [Char.isDigit, Char.toNat, UInt32.le_iff_toNat_le]
+  unfold Char.isDigit Char.toNat
+  simp only [ge_iff_le, Bool.and_eq_true, decide_eq_true_eq, UInt32.le_iff_toNat_le]
+  rfl
 
 theorem isNumWs_digit {c : Char} (h : c.isDigit = true) : isNumWs c = false := by
   have := (isDigit_iff c).1 h
@@ -71,16 +74,19 @@ theorem digitVal_ascii {c : Char} (h : c.isDigit = true) : digitVal c = some (c.
   have := (isDigit_iff c).1 h
   unfold digitVal
   rw [ht, List.findSome?_cons]
-  have h1 : (decide (48 ≤ c.toNat) && decide (c.toNat < 48 + 10)) = true := by simp; omega
-  simp [h1]
+  have h1 : (decide (48 ≤ c.toNat) && decide (c.toNat < 48 + 10)) = true := by
+    simp only [Bool.and_eq_true, decide_eq_true_eq]; omega
+  rw [if_pos h1]
 
 theorem digitsGo_ascii (acc : List Nat) (r : List Char) (h : ∀ c ∈ r, c.isDigit = true) :
     digitsGo acc r = (acc.reverse ++ r.map (fun c => c.toNat - 48), []) := by
   induction r generalizing acc with
   | nil => simp [digitsGo]
   | cons c r ih =>
-    simp only [digitsGo, digitVal_ascii (h c (by simp))]
-    rw [ih _ (fun x hx => h x (by simp [hx]))]
+    have hc := digitVal_ascii (h c List.mem_cons_self)
+    have step : digitsGo acc (c :: r) = digitsGo ((c.toNat - 48) :: acc) r := by
+      rw [digitsGo.eq_def]; simp only [hc]
+    rw [step, ih _ (fun x hx => h x (List.mem_cons_of_mem c hx))]
     simp
 
 theorem ofDigits_map (l : List Char) : ofDigits (l.map (fun c => c.toNat - 48)) = Nat.ofDigitChars 10 l 0 := by
